@@ -70,6 +70,17 @@ func opensslSeeds(c *Ctx) []p7Seed {
 	for _, a := range [][]string{{"smime", "-noattr", "-nodetach"}, {"cms", "-noattr", "-nodetach"}, {"smime", "-noattr"}} {
 		cfgs = append(cfgs, osslCfg{2048, a, nil})
 	}
+	// the certificates field present WITHOUT the signer's own certificate (the chain is shipped, the verifier holds
+	// the leaf): -nocerts -certfile <the issuing CA's certificate>, signer issued by that CA; and signed attributes
+	// without the optional signingTime (cms -no_signing_time; older CLIs do not know the flag: that leg is skipped)
+	caShape := certShapes(c)[9]
+	os.WriteFile(filepath.Join(dir, "chain.pem"), pem.EncodeToMemory(&pem.Block{Type: "CERTIFICATE", Bytes: issuerCertOf(c, caShape).Raw}), 0o644)
+	for _, a := range [][]string{{"smime", "-nocerts", "-certfile", "@chain"}, {"cms", "-nodetach", "-nocerts", "-certfile", "@chain"}, {"cms", "-nocerts", "-certfile", "@chain", "-nosmimecap"}} {
+		cfgs = append(cfgs, osslCfg{2048, a, &caShape})
+	}
+	for _, a := range [][]string{{"cms", "-no_signing_time"}, {"cms", "-no_signing_time", "-nodetach", "-nosmimecap"}, {"cms", "-no_signing_time", "-nocerts", "-certfile", "@chain"}} {
+		cfgs = append(cfgs, osslCfg{2048, a, &caShape})
+	}
 	for _, oc := range cfgs {
 		cfg := oc.args
 		k0 := poolKey(c, oc.bits, 0)
@@ -84,6 +95,11 @@ func opensslSeeds(c *Ctx) []p7Seed {
 		os.Remove(out)
 		args := append([]string{cfg[0], "-sign", "-binary", "-md", "sha256", "-signer", filepath.Join(dir, "cert.pem"), "-inkey", filepath.Join(dir, "key.pem"),
 			"-in", filepath.Join(dir, "content.bin"), "-outform", "DER", "-out", out}, cfg[1:]...)
+		for i, a := range args {
+			if a == "@chain" {
+				args[i] = filepath.Join(dir, "chain.pem")
+			}
+		}
 		cmd := exec.Command(ossl, args...)
 		cmd.Env = append(os.Environ(), "OPENSSL_CONF=/dev/null")
 		if err := cmd.Run(); err != nil {
@@ -478,6 +494,88 @@ func validitySeeds(c *Ctx) []p7Seed {
 	return seeds
 }
 
+// issuerCertOf: the (self-signed) certificate of the CA that issued the certificates of a CA-issued shape - the
+// CA key is pool key 2 (makeRSACert), its subject the shape's issuer name
+func issuerCertOf(c *Ctx, sh certShape) *x509.Certificate {
+	return makeRSACert(poolKey(c, 2048, 2), certShape{issuer: sh.issuer, serial: big.NewInt(1), desc: "issuer-of/" + sh.desc})
+}
+
+// certFieldSeeds: "certificate inclusion on/off" is not all a producer can do with the certificates field: it is a
+// bag of certificates the verifier MAY find useful. A producer that ships the chain and expects the verifier to hold
+// the leaf (openssl -nocerts -certfile chain.pem) sends a field that is present but does not hold the signer's own
+// certificate: the issuing CA only, an unrelated certificate only, both. The signature still names its signer by
+// issuer and serial and must verify against the signer's certificate (and not against the twin / a stranger).
+func certFieldSeeds(c *Ctx) []p7Seed {
+	k0, k1 := poolKey(c, 2048, 0), poolKey(c, 2048, 1)
+	var seeds []p7Seed
+	shapes := certShapes(c)
+	for i, sh := range []certShape{shapes[9], shapes[10], shapes[12], shapes[2], shapes[13]} {
+		right, twin, other := makeRSACert(k0, sh), makeRSACert(k1, sh), makeRSACert(k1, shapes[0])
+		var fields []struct {
+			name  string
+			certs []*x509.Certificate
+		}
+		add := func(n string, cs ...*x509.Certificate) {
+			fields = append(fields, struct {
+				name  string
+				certs []*x509.Certificate
+			}{n, cs})
+		}
+		if sh.subject != nil {
+			ca := issuerCertOf(c, sh)
+			add("issuer-only", ca)
+			add("issuer+unrelated", ca, other)
+		} else {
+			add("unrelated-only", other)
+			add("two-unrelated", other, makeRSACert(k1, shapes[3]))
+		}
+		for j, f := range fields {
+			for _, attached := range []bool{false, true} {
+				if !c.Thorough && attached != ((i+j)%2 == 0) {
+					continue
+				}
+				if b := buildCMSGen(k0, right, cmsOpts{content: []byte("harness-built CMS content"), attached: attached, smimecap: j == 0, certsInstead: f.certs}); b != nil {
+					seeds = append(seeds, p7Seed{fmt.Sprintf("cms-shaped/certificates-without-the-signers/%s/%s/attached=%v", f.name, sh.desc, attached), b, right, twin, other, true})
+				}
+			}
+		}
+	}
+	return seeds
+}
+
+// optionalAttrSeeds: contentType and messageDigest are the mandatory signed attributes; signingTime is optional
+// (openssl cms -no_signing_time, Authenticode signers that timestamp by countersignature). Signed attributes
+// WITHOUT it, alone, with S/MIME capabilities and with further attributes, attached and detached.
+func optionalAttrSeeds(c *Ctx) []p7Seed {
+	k0, k1 := poolKey(c, 2048, 0), poolKey(c, 2048, 1)
+	var seeds []p7Seed
+	shapes := certShapes(c)
+	extra := cmsExtraAttrs()
+	for i, sh := range []certShape{shapes[2], shapes[9]} {
+		right, twin, other := makeRSACert(k0, sh), makeRSACert(k1, sh), makeRSACert(k1, shapes[0])
+		for _, attached := range []bool{false, true} {
+			for _, smimecap := range []bool{false, true} {
+				for k := 0; k < 2; k++ {
+					o := cmsOpts{content: []byte("harness-built CMS content"), attached: attached, smimecap: smimecap, withCerts: true, noSigningTime: true}
+					name := "plain"
+					if k == 1 {
+						if len(extra) == 0 || (!c.Thorough && attached == smimecap) {
+							continue
+						}
+						e := extra[(i+len(seeds))%len(extra)]
+						o.extraAttrs = e.attrs
+						name = "with/" + e.name
+					}
+					if b := buildCMSGen(k0, right, o); b != nil {
+						seeds = append(seeds, p7Seed{fmt.Sprintf("cms-shaped/no-signing-time/%s/%s/attached=%v/smimecap=%v", name, sh.desc, attached, smimecap), b, right, twin, other, true})
+					}
+				}
+			}
+		}
+	}
+	return seeds
+}
+
 func mustMarshal(v interface{}, params string) []byte {
 	b, err := asn1.MarshalWithParams(v, params)
 	if err != nil {
@@ -518,6 +616,8 @@ type cmsOpts struct {
 	hash                          crypto.Hash           // the digest algorithm of the first signer (0: SHA-256)
 	coSigners                     []cmsSigner           // further signer entries over the same content
 	coFirst                       bool                  // the further entries stand in front of the first signer's
+	certsInstead                  []*x509.Certificate   // non-nil: the certificates field holds exactly these, not the signers' own
+	noSigningTime                 bool                  // the optional signingTime attribute is left out of the signed attributes
 }
 
 var cmsHashOIDs = map[crypto.Hash]asn1.ObjectIdentifier{
@@ -576,8 +676,10 @@ func buildCMSGen(key *rsa.PrivateKey, cert *x509.Certificate, o cmsOpts) []byte 
 		md := hashOf(h, o.content)
 		attrs := [][]byte{
 			mustMarshal(cmsAttr{asn1.ObjectIdentifier{1, 2, 840, 113549, 1, 9, 3}, set(mustMarshal(ect, ""))}, ""),
-			mustMarshal(cmsAttr{asn1.ObjectIdentifier{1, 2, 840, 113549, 1, 9, 5}, set(mustMarshal(o.signingTime.UTC().Truncate(time.Second), "utc"))}, ""),
 			mustMarshal(cmsAttr{asn1.ObjectIdentifier{1, 2, 840, 113549, 1, 9, 4}, set(mustMarshal(md, ""))}, ""),
+		}
+		if !o.noSigningTime {
+			attrs = append(attrs, mustMarshal(cmsAttr{asn1.ObjectIdentifier{1, 2, 840, 113549, 1, 9, 5}, set(mustMarshal(o.signingTime.UTC().Truncate(time.Second), "utc"))}, ""))
 		}
 		if o.smimecap {
 			// S/MIME capabilities: SEQUENCE OF SEQUENCE { OID } (aes256-cbc, aes128-cbc), long enough to sort last
@@ -641,7 +743,13 @@ func buildCMSGen(key *rsa.PrivateKey, cert *x509.Certificate, o cmsOpts) []byte 
 		eci = append(eci, tagged(0xa0, mustMarshal(o.content, ""))...)
 	}
 	parts := [][]byte{mustMarshal(1, ""), tagged(0x31, bytes.Join(algs, nil)), seq(eci)}
-	if o.withCerts {
+	if o.certsInstead != nil {
+		certs = nil
+		for _, ec := range o.certsInstead {
+			certs = append(certs, ec.Raw...)
+		}
+		parts = append(parts, tagged(0xa0, certs))
+	} else if o.withCerts {
 		parts = append(parts, tagged(0xa0, certs))
 	}
 	parts = append(parts, tagged(0x31, sis))
@@ -873,6 +981,8 @@ func c16Gen(c *Ctx) {
 	seeds = append(seeds, contentKindSeeds(c)...)
 	seeds = append(seeds, cmsVariantSeeds(c)...)
 	seeds = append(seeds, opensslVariantSeeds(c)...)
+	seeds = append(seeds, certFieldSeeds(c)...)
+	seeds = append(seeds, optionalAttrSeeds(c)...)
 	defer func() {
 		for tz, w := range c16Workers {
 			w.Close()
@@ -954,7 +1064,7 @@ func c16Gen(c *Ctx) {
 
 func init() {
 	register("C16", &PropDef{
-		Rule:   "OpenSSL smime/cms x {detached, -nodetach} x {-nosmimecap} x {-nocerts} x {-cades} produced at check time when the CLI exists, and smime/cms -noattr (no signed attributes: has to parse, need not verify); harness-built CMS SignedData in OpenSSL's shape (DER-sorted attribute SET, S/MIME capabilities on/off, attached/detached, certificates on/off, signer self-signed or issued by a CA, the signer's certificate itself signed with SHA-256, SHA-384 or SHA-512, a hand-encoded multi-valued-RDN name; signer keys of 2048 bits and - OpenSSL smime / cms -nodetach and harness-built - of 2047 and 2049 bits [thorough: also 3001, 4095], i.e. RSA moduli that are not a whole number of bytes long); signer certificates whose validity period stands in every relation to the signed signingTime (covering it, expired a year / a second before it, valid only from a second / a year after it, ending or starting exactly at it, a single instant equal to it, no validity period at all = both dates the zero time, only NotBefore zero; self-signed and CA-issued) for signatures made now [all relations], in 2011 and in 2049 [quick: a third of the relations each], the default 2023..2033 certificate with a signingTime one second before / exactly at / one second after either end and in 1999, and OpenSSL smime / cms signing now with such expired / not yet valid / period-less certificates - validity periods play no part in the property: the signature must verify against the signer's certificate and be rejected for the twin and the unrelated one; ATTACHED signatures over each kind of content by what its octets look like to a DER reader (text, 1 KiB of random bytes, a single zero byte, a file that is itself exactly one DER SEQUENCE - a small one, a .der certificate, another signature blob -, one OCTET STRING holding a SEQUENCE, one SET, a SEQUENCE followed by one more byte, bytes that only start like a SEQUENCE), harness-built in OpenSSL's shape and made by OpenSSL smime / cms -nodetach (quick: the two tools alternate over the kinds, every third kind also detached; thorough: both, and detached, for every kind); the sbsign / sbvarsign artefacts of the repository. Harness-built blobs without signed attributes (signature over the content octets, attached and detached) have to parse. Each is parsed and verified against the signer's certificate, a twin (same issuer+serial, other key) and an unrelated certificate - on a fresh parsed object and on ONE parsed object that answers for several certificates in turn, in both orders (signer's certificate after the twin: Verify(twin), Verify(signer), Verify(twin), Verify(signer); twin and unrelated certificate after the signer's) -, and its signed attributes are re-encoded and compared with the transmitted bytes located with encoding/asn1; where the blob verifies, the entry's signature is checked with crypto/rsa under the signer's key over the re-encoding itself. The verifying process's local time zone: for every blob with signed attributes the verdict for the signer's certificate and the reconstruction of the signed attributes are also asked of worker processes started with TZ = Asia/Tokyo, America/St_Johns, Europe/Berlin, Etc/GMT+12, Etc/GMT-14 and UTC (quick: two zones per blob, rotating; thorough: all six; the worker reports its offset, a case counts as non-trivial when it is not zero): the blob must verify there, the verdict must be the one given in this process, and the reconstruction must be the transmitted bytes (signingTime is a UTCTime ending in Z, whatever the zone of the process that re-encodes it). Histories of reconstructions: for every window of three seeds (two neighbours and one seven places on) the three signatures are parsed, Attributes.Marshal is called on them in the order 0,1,2,0,2,1 with EVERY result kept, and at the end each kept result must still be the bytes signed in its own signature (thorough: 400 random histories over 2-6 seeds and 2-13 reconstructions as well). Producer configurations that move things around (cmsVariantSeeds, opensslVariantSeeds): (a) an encapsulated content type other than data - object identifiers of 3, 10, 12, 13, 14, 15, 24 and 38 DER octets, harness-built (attached / detached alternating; thorough: both) and openssl cms -econtent_type with 10, 13, 14 and 24 octets (quick: two of {-nodetach, detached, -nosmimecap, both} each; thorough: all four): the signed contentType attribute grows with the identifier and changes its place in the DER-sorted SET (as long as signingTime at 13 octets, behind it from 14 on); (b) additional signed attributes by where their encoding sorts: shorter than contentType, between signingTime and messageDigest, exactly as long as messageDigest with a type that sorts in front of / behind it, one attribute with two values, and a short, a medium and a long one together (thorough: each also under a 14-octet content type); (c) SEVERAL signers of one content with a digest algorithm each: the SHA-256 signer in front of or behind a co-signer that uses SHA-512, SHA-1, SHA-384 or SHA-256 for its message digest and its signature (attached: both orders; detached: one order in quick, both in thorough), and three signers SHA-512 + SHA-256 + SHA-1; each must verify against the SHA-256 signer's certificate (whatever the other entries hold), be rejected for its twin and a stranger, has to parse when asked under the co-signer's certificate, and EVERY entry's attributes must re-encode to the transmitted bytes. Every case is non-trivial; distinct = distinct (blob, certificate).",
+		Rule:   "OpenSSL smime/cms x {detached, -nodetach} x {-nosmimecap} x {-nocerts} x {-cades} produced at check time when the CLI exists, and smime/cms -noattr (no signed attributes: has to parse, need not verify); harness-built CMS SignedData in OpenSSL's shape (DER-sorted attribute SET, S/MIME capabilities on/off, attached/detached, certificates on/off, signer self-signed or issued by a CA, the signer's certificate itself signed with SHA-256, SHA-384 or SHA-512, a hand-encoded multi-valued-RDN name; signer keys of 2048 bits and - OpenSSL smime / cms -nodetach and harness-built - of 2047 and 2049 bits [thorough: also 3001, 4095], i.e. RSA moduli that are not a whole number of bytes long); signer certificates whose validity period stands in every relation to the signed signingTime (covering it, expired a year / a second before it, valid only from a second / a year after it, ending or starting exactly at it, a single instant equal to it, no validity period at all = both dates the zero time, only NotBefore zero; self-signed and CA-issued) for signatures made now [all relations], in 2011 and in 2049 [quick: a third of the relations each], the default 2023..2033 certificate with a signingTime one second before / exactly at / one second after either end and in 1999, and OpenSSL smime / cms signing now with such expired / not yet valid / period-less certificates - validity periods play no part in the property: the signature must verify against the signer's certificate and be rejected for the twin and the unrelated one; ATTACHED signatures over each kind of content by what its octets look like to a DER reader (text, 1 KiB of random bytes, a single zero byte, a file that is itself exactly one DER SEQUENCE - a small one, a .der certificate, another signature blob -, one OCTET STRING holding a SEQUENCE, one SET, a SEQUENCE followed by one more byte, bytes that only start like a SEQUENCE), harness-built in OpenSSL's shape and made by OpenSSL smime / cms -nodetach (quick: the two tools alternate over the kinds, every third kind also detached; thorough: both, and detached, for every kind); the sbsign / sbvarsign artefacts of the repository; a certificates field that is PRESENT but does not hold the signer's own certificate (the chain is shipped, the verifier holds the leaf): harness-built with the issuing CA's certificate only, the CA's and an unrelated one, one or two unrelated ones only (CA-issued and self-signed signers, attached / detached), and openssl smime / cms -nocerts -certfile <CA certificate> - it must verify against the signer's certificate like any other; signed attributes WITHOUT the optional signingTime attribute: harness-built (alone, with S/MIME capabilities, with additional signed attributes; attached / detached) and openssl cms -no_signing_time (plain, -nodetach -nosmimecap, -nocerts -certfile) - they must verify, and the reconstruction from the parsed values must be the transmitted bytes (no attribute the signer did not sign). Harness-built blobs without signed attributes (signature over the content octets, attached and detached) have to parse. Each is parsed and verified against the signer's certificate, a twin (same issuer+serial, other key) and an unrelated certificate - on a fresh parsed object and on ONE parsed object that answers for several certificates in turn, in both orders (signer's certificate after the twin: Verify(twin), Verify(signer), Verify(twin), Verify(signer); twin and unrelated certificate after the signer's) -, and its signed attributes are re-encoded and compared with the transmitted bytes located with encoding/asn1; where the blob verifies, the entry's signature is checked with crypto/rsa under the signer's key over the re-encoding itself. The verifying process's local time zone: for every blob with signed attributes the verdict for the signer's certificate and the reconstruction of the signed attributes are also asked of worker processes started with TZ = Asia/Tokyo, America/St_Johns, Europe/Berlin, Etc/GMT+12, Etc/GMT-14 and UTC (quick: two zones per blob, rotating; thorough: all six; the worker reports its offset, a case counts as non-trivial when it is not zero): the blob must verify there, the verdict must be the one given in this process, and the reconstruction must be the transmitted bytes (signingTime is a UTCTime ending in Z, whatever the zone of the process that re-encodes it). Histories of reconstructions: for every window of three seeds (two neighbours and one seven places on) the three signatures are parsed, Attributes.Marshal is called on them in the order 0,1,2,0,2,1 with EVERY result kept, and at the end each kept result must still be the bytes signed in its own signature (thorough: 400 random histories over 2-6 seeds and 2-13 reconstructions as well). Producer configurations that move things around (cmsVariantSeeds, opensslVariantSeeds): (a) an encapsulated content type other than data - object identifiers of 3, 10, 12, 13, 14, 15, 24 and 38 DER octets, harness-built (attached / detached alternating; thorough: both) and openssl cms -econtent_type with 10, 13, 14 and 24 octets (quick: two of {-nodetach, detached, -nosmimecap, both} each; thorough: all four): the signed contentType attribute grows with the identifier and changes its place in the DER-sorted SET (as long as signingTime at 13 octets, behind it from 14 on); (b) additional signed attributes by where their encoding sorts: shorter than contentType, between signingTime and messageDigest, exactly as long as messageDigest with a type that sorts in front of / behind it, one attribute with two values, and a short, a medium and a long one together (thorough: each also under a 14-octet content type); (c) SEVERAL signers of one content with a digest algorithm each: the SHA-256 signer in front of or behind a co-signer that uses SHA-512, SHA-1, SHA-384 or SHA-256 for its message digest and its signature (attached: both orders; detached: one order in quick, both in thorough), and three signers SHA-512 + SHA-256 + SHA-1; each must verify against the SHA-256 signer's certificate (whatever the other entries hold), be rejected for its twin and a stranger, has to parse when asked under the co-signer's certificate, and EVERY entry's attributes must re-encode to the transmitted bytes. Every case is non-trivial; distinct = distinct (blob, certificate).",
 		Assume: []string{"which OpenSSL configurations ran is recorded in notes.openssl; nothing depends on the CLI being present"},
 		Eval:   c16Eval, Gen: c16Gen,
 	})
